@@ -409,3 +409,40 @@ func TestC15KnownStale(t *testing.T) {
 	}
 	rec.Done()
 }
+
+// TestC15KnownPercentInflated: deterministic reproducer of the recorded finding
+// "percent base inflated": the canary replica set syncs before the active one.
+func TestC15KnownPercentInflated(t *testing.T) {
+	rec := evid.New("TestC15KnownPercentInflated", "C15", "fixed reproducer of the recorded finding: 4 nodes, replicas 50%, canary set synced before the active set")
+	w := &World{rec: rec, cfg: WorldCfg{Monitors: mon.Of("canary-list-growth", "no-panic"), Property: "C15"}, H: mon.NewHistory(), RSSeen: map[string]bool{}, RolesSynced: map[string]bool{}, Facts: map[string]int{}, lastSyncAt: map[string]time.Time{}, Det: true}
+	var viol []mon.V
+	w.OnViolation = func(vs []mon.V) { viol = append(viol, vs...) }
+	w.C = sim.New(sim.Options{})
+	for i := 1; i <= 4; i++ {
+		w.C.AddNode(fmt.Sprintf("n%d", i), map[string]string{"zone": "a"}, nil)
+	}
+	st := edsv1.ExtendedDaemonSetSpecStrategy{Canary: &edsv1.ExtendedDaemonSetSpecStrategyCanary{Replicas: gen.ParseIntOrPercent("50%"), ValidationMode: edsv1.ExtendedDaemonSetSpecStrategyCanaryValidationModeManual}}
+	st.RollingUpdate.SlowStartAdditiveIncrease = gen.ParseIntOrPercent("10")
+	w.C.Add(&edsv1.ExtendedDaemonSet{ObjectMeta: metav1.ObjectMeta{Namespace: "ns1", Name: "foo"}, Spec: edsv1.ExtendedDaemonSetSpec{Template: letterTpl('A'), Strategy: st}})
+	k := sim.KeyOf("ns1", "foo")
+	w.EDS = append(w.EDS, k)
+	for i := 0; i < 6; i++ {
+		w.fairRound("deploy")
+	}
+	w.editTemplate(k, 'B')
+	w.reconcile(sim.ActorEDS, "ns1", "foo") // creates the replica set for B
+	w.reconcile(sim.ActorEDS, "ns1", "foo") // selects 50% of 4 = 2 canary nodes
+	e := w.C.EDS("ns1", "foo")
+	if e.Status.Canary == nil || len(e.Status.Canary.Nodes) != 2 {
+		t.Fatalf("harness: expected two canary nodes, got %+v", e.Status.Canary)
+	}
+	w.C.Advance(11 * time.Second)
+	w.reconcile(sim.ActorERS, "ns1", e.Status.Canary.ReplicaSet) // canary set first: desired=2 while the active set still says 4
+	w.reconcile(sim.ActorEDS, "ns1", "foo")                      // status.desired = 4 + 2
+	w.reconcile(sim.ActorEDS, "ns1", "foo")                      // 50% of 6 = 3: a third node is selected
+	rec.Case(true, w.fp(), "known-finding-reproducer")
+	rec.Sample(w.sampleTrace(40))
+	settle(t, rec, viol, map[string]interface{}{"trace": w.C.Trace}, len(w.C.Trace), strings.Join(w.C.Trace, "\n"))
+	rec.Extra("canary_nodes_after", w.C.EDS("ns1", "foo").Status.Canary.Nodes)
+	rec.Done()
+}
